@@ -347,7 +347,7 @@ def build():
     e.rewrite_re('R6', r'(\w+)\s*\.(?:iter|into_iter)\(\)\s*\.take\(([^;]+?)\)\s*\.map\(\|x\| x\.ok_or\(CircuitBuilderError::MissingOutput\)\)\s*\.collect::<Result<Vec<_>, _>>\(\)', r'take_outputs(&\1, \2)', flags_dotall=True, min_count=0)
     e.rewrite_re('R8', r'CircuitBuilderError::MissingOutput', 'CircuitBuilderError::missing_output()', min_count=0)
     e.rewrite_re('R5', r'for _ in 0\.\.\(step - 1\) \{', 'for rp_ in 0..(step - 1) {', min_count=0)
-    e.rewrite_re('R7', r'Some\(injected_digest\)', 'Some(injected_digest.as_slice())', min_count=0)
+    e.rewrite_re('R7', r'Some\(injected_digest\)(?!\s*=)', 'Some(injected_digest.as_slice())', min_count=0)
     e.erase_struct_error('CircuitBuilderError::InvalidDimension', 'CircuitBuilderError::mismatch()')
     unfor_zip_pairs(e)
     e.requires('well_formed_walk', """permutation_config.a4_shape() && schedule@.len() < 0x1000_0000 && old(circuit).has_all(index_bits@) && old(circuit).has_all(leaf_digest@) && old(circuit).has_all(selected_root@)
